@@ -803,6 +803,18 @@ std::string formDescriptionOfCyclicDependency(const History &history, const std:
 void recordVariableEquivalences(const ComponentPtr &component, EquivalenceMap &equivalenceMap, IndexStack &indexStack);
 void generateEquivalenceMap(const ComponentPtr &component, EquivalenceMap &map, IndexStack &indexStack);
 void applyEquivalenceMapToModel(const EquivalenceMap &map, const ModelPtr &model);
+
+/**
+ * @brief Copy the identifiers of the equivalences in a map from one model to another.
+ *
+ * For every equivalence in the @p map, set the mapping and connection identifiers
+ * it has in the @p sourceModel on the same equivalence of the @p targetModel.
+ *
+ * @param map The equivalence map, valid for both models.
+ * @param sourceModel The model to read the identifiers from.
+ * @param targetModel The model to set the identifiers on.
+ */
+void copyEquivalenceIds(const EquivalenceMap &map, const ModelPtr &sourceModel, const ModelPtr &targetModel);
 NameList componentNames(const ModelPtr &model);
 NameList unitsNamesUsed(const ComponentPtr &component);
 EquivalenceMap rebaseEquivalenceMap(const EquivalenceMap &map, const IndexStack &originStack, const IndexStack &destinationStack);
